@@ -17,6 +17,9 @@ Round 3 (checklist items 22-27): histories with copy.copy / copy.deepcopy / pick
 (copy-protocol.*), assignment through every public attribute name (after-assignment.*), operations that raise or that
 silently make the record non-finite (after-raise.*, non-finite-record.spectrum-of-current-values), f(A); f(B); f(A) at
 non-default options with B of the same and of another shape (aba.third==first, bit for bit).
+Round 4: explicit gen_fa_spectrum(p2_plus | n) -> reads / analysis calls of OTHER derived quantities -> spectrum reads, judged
+by the driver on the N it asked for (after-readers.*): a reader that silently regenerates the default spectrum passes every
+monitor, because the monitors see a correct explicit default generation.
 """
 import copy
 import pickle
@@ -91,7 +94,18 @@ RULE = ('case = (record, dt, Signal|AccSignal, p2_plus, explicit n); each case r
         'record and reads; (25) f(A); f(B); f(A) for six of the eleven entry points per case at p2_plus 1..3 and an explicit n, '
         'B of the same / shorter / longer / half / double / +1 length and the same or another dt; (26) butter_pass corners '
         'within 1 % of the Nyquist frequency and below 1e-3 of it, explicit n 17..64 times the record length; (27) silent '
-        '(all-zero) and strictly positive records in every container form, tuples for reset_values.')
+        '(all-zero) and strictly positive records in every container form, tuples for reset_values. '
+        'Round 4 (readers): Signal / AccSignal / Cluster member / two objects on one caller array, npts 2..724 in every container '
+        'form: [optional read or smoothed spectrum on the default grid] -> gen_fa_spectrum(p2_plus 1..3 | explicit n of every '
+        'class | both | defaults as control; int / np.int64 / np.int32; optionally two generations, the last one counts) -> 1..4 '
+        'reads / analysis calls that do not change the record, every one of them first in turn: smooth_fa_spectrum, '
+        'gen_/generate_smooth_fa_spectrum (default, own frequencies, band), new smoothing frequencies through every setter + read, '
+        'im.calc_bandwidth_freqs / f_min / f_max, get_sig_freq_range, custom smoothing matrix, array-level smoothing, '
+        'fa_spectrum_abs, time / npts / values, section average, Stockwell (plot_stock memo, transform, max frequency), '
+        'array-level generate_/calc_fa_spectrum, deepcopy / pickle copy analysed with other options, Fourier moments / Boore '
+        'bandwidth, fas2values of the own spectrum; AccSignal also velocity, displacement, peaks, response spectra / series, '
+        'cumulative / duration / all motion stats, every eqsig.im duration / intensity / period function -> fa_spectrum / '
+        'fa_freqs / fa_frequencies / max_fa_period in random order (also between the readers), judged on the N the driver asked for.')
 ASSUMPTIONS = ['finite 1-D record of length >= 2, real or - as returned by the library\'s own fas2signal - complex (judged against '
                'the DFT of the complex values; Parseval only for real records); one-sample and float16 records: counted, not '
                'judged; dt > 0 finite',
@@ -123,7 +137,12 @@ ASSUMPTIONS = ['finite 1-D record of length >= 2, real or - as returned by the l
                'that bind a new value buffer are driven while the two objects share it',
                'an assignment through a public name is judged through what the object then reports: every spectrum is that of '
                'its CURRENT .values / .dt / len(values); whether the assignment is accepted, ignored or refused is counted only',
-               'aba.third==first is bit-for-bit: the same NumPy routines on the same bits in one process are deterministic']
+               'aba.third==first is bit-for-bit: the same NumPy routines on the same bits in one process are deterministic',
+               'after-readers.*: a read or analysis call of another derived quantity (smoothed spectrum, bandwidth, velocity, '
+               'peaks, response spectrum, Stockwell, duration / intensity measures, copies, new smoothing frequencies) does not '
+               'change the record, so the spectrum the caller generated with p2_plus / n stays the reported one: N is what the '
+               'driver passed to the last gen_fa_spectrum, not what the object or the monitors remember; readers that raise '
+               '(np.trapz removals, bandwidth of a 1-bin spectrum) are counted; max_fa_period judged for N <= 4096']
 MIN_EVALS = {   # about half of what a normal run reaches
     'quick': {'gen_fa_spectrum.bins==dt*DFT': 2500, 'lazy.bins==dt*DFT': 7000,
               'generate_fa_spectrum.bins==dt*DFT': 1200, 'calc_fa_spectrum.bins==dt*DFT': 2400,
@@ -145,7 +164,8 @@ MIN_EVALS = {   # about half of what a normal run reaches
               'after-assignment.bins==dt*DFT(own current values)': 1100, 'after-assignment.freqs==k/(N*dt)': 1100,
               'after-raise.nbins==N//2': 1600, 'after-raise.bins==dt*DFT(own current values)': 1600,
               'after-raise.freqs==k/(N*dt)': 1600, 'non-finite-record.spectrum-of-current-values': 400,
-              'aba.third==first': 1100},
+              'aba.third==first': 1100, 'after-readers.nbins==N//2': 600, 'after-readers.bins==dt*DFT': 600,
+              'after-readers.freqs==k/(N*dt)': 600, 'after-readers.max_fa_period-on-requested-grid': 170},
     'thorough': {'gen_fa_spectrum.bins==dt*DFT': 9500, 'lazy.bins==dt*DFT': 27000,
                  'generate_fa_spectrum.bins==dt*DFT': 4500, 'calc_fa_spectrum.bins==dt*DFT': 9000,
                  'gen_fa_spectrum.nbins==N//2': 9500, 'lazy.nbins==N//2': 27000,
@@ -166,7 +186,8 @@ MIN_EVALS = {   # about half of what a normal run reaches
                  'after-assignment.bins==dt*DFT(own current values)': 9000, 'after-assignment.freqs==k/(N*dt)': 9000,
                  'after-raise.nbins==N//2': 13000, 'after-raise.bins==dt*DFT(own current values)': 13000,
                  'after-raise.freqs==k/(N*dt)': 13000, 'non-finite-record.spectrum-of-current-values': 3500,
-                 'aba.third==first': 9000}}
+                 'aba.third==first': 9000, 'after-readers.nbins==N//2': 4800, 'after-readers.bins==dt*DFT': 4800,
+                 'after-readers.freqs==k/(N*dt)': 4800, 'after-readers.max_fa_period-on-requested-grid': 1500}}
 EXHAUSTIVE = {'quick': 'every record length 2..130 (4 records each) through every entry point; every 2^e-1, 2^e, 2^e+1, e=3..11',
               'thorough': 'every record length 2..130 (12 records each) through every entry point; every 2^e-1, 2^e, 2^e+1, e=3..12'}
 
@@ -504,7 +525,7 @@ def _post_lazy(self, result, st, which):
         x, dt, T = rec
     N, prior = _expected_lazy_n(self, len(x) if rec is not None else nf[0], triggered, changed)
     hist = _HISTORY[0]
-    wit = (lambda: dict(hist, fn='rel.history')) if hist is not None else \
+    wit = (lambda: dict(hist, fn=hist.get('rel', 'rel.history'))) if hist is not None else \
         (lambda: _sig_wit(st, 'Signal.' + which, prior_gen=prior))
     _check_record_unchanged(CTX, 'reading ' + which, wit, self, st)
     if N is None:
@@ -684,7 +705,7 @@ def _post_max_fa_period(args, kwargs, result, st):
     ent = _LAST.get(id(asig))
     prior = {'p2_plus': ent[1], 'n': ent[2]} if ent is not None and ent[0]() is asig and (ent[1], ent[2]) != (0, None) else None
     hist = _HISTORY[0]
-    wit = (lambda: dict(hist, fn='rel.history')) if hist is not None else (lambda: _sig_wit(st, 'max_fa_period', prior_gen=prior))
+    wit = (lambda: dict(hist, fn=hist.get('rel', 'rel.history'))) if hist is not None else (lambda: _sig_wit(st, 'max_fa_period', prior_gen=prior))
     _check_record_unchanged(CTX, 'max_fa_period', wit, asig, st)
     amp = np.abs(fa)
     top = float(np.max(amp)) if amp.size else 0.0
@@ -1965,6 +1986,309 @@ def rel_aba(ctx, eqsig, p):
 
 
 # ---------------------------------------------------------------------------------------------------- workload
+# ---------------------------------------------------------------------------------------------------- round 4: readers
+# Reads and analysis calls of OTHER derived quantities between an explicit gen_fa_spectrum(p2_plus | n) and the reads of
+# the spectrum. None of them changes the record, so the spectrum read afterwards is still dt*DFT on the N the CALLER asked
+# for. N is kept by the driver (what the caller gave), never taken from the monitors' bookkeeping or from the object: a
+# reader that regenerates the spectrum with the defaults passes every monitor (it IS a correct default spectrum).
+SMOOTH_READERS = ['smooth_fa_spectrum', 'gen_smooth_fa_spectrum', 'gen_smooth_fa_spectrum/freqs', 'gen_smooth_fa_spectrum/band',
+                  'generate_smooth_fa_spectrum', 'generate_smooth_fa_spectrum/band', 'set_smooth_fa_freqs+read',
+                  'set_smooth_fa_frequencies+read', 'set_smooth_by_range+read', 'set_smooth_freq_range+read',
+                  'set_smooth_freq_points+read', 'im.calc_bandwidth_freqs', 'im.calc_bandwidth_f_min', 'im.calc_bandwidth_f_max',
+                  'get_sig_freq_range']
+COMMON_READERS = SMOOTH_READERS + ['fa_spectrum_abs', 'smooth_fa_freqs', 'custom_matrix', 'calc_smooth_fa_spectrum/array-level',
+                                   'time+npts+values', 'get_section_average', 'stockwell.plot_stock', 'stockwell.transform',
+                                   'stockwell.get_max_stockwell_freq', 'stockwell.freqs+times', 'generate_fa_spectrum/array-level',
+                                   'calc_fa_spectrum/array-level', 'deepcopy+read-copy', 'pickle+read-copy', 'calc_fourier_moment',
+                                   'get_bandwidth_boore_2003', 'fas2values(own spectrum)']
+ACC_READERS = ['velocity', 'displacement', 'generate_displacement_and_velocity_series', 'peaks', 'generate_peak_values',
+               's_a', 's_v', 's_d', 'gen_response_spectrum', 'response_series', 'generate_cumulative_stats',
+               'generate_duration_stats', 'generate_all_motion_stats', 'reset_all_motion_stats', 'im.calc_sig_dur', 'im.calc_sir',
+               'im.calc_arias_intensity', 'im.calc_cav', 'im.calc_cav_dp', 'im.calc_isv', 'im.calc_max_velocity_period',
+               'im.max_acceleration_period', 'im.calc_brac_dur', 'im.calc_acc_rms', 'im.calc_integral_of_abs_velocity',
+               'im.calc_cumulative_abs_displacement', 'im.calc_integral_of_abs_acceleration', 'im.calc_unit_kinetic_energy',
+               'im.calc_asi', 'im.calc_vsi', 'im.cumulative_response_spectra']
+HEAVY_READERS = {'stockwell.plot_stock', 'stockwell.transform', 'stockwell.get_max_stockwell_freq', 'stockwell.freqs+times',
+                 's_a', 's_v', 's_d', 'gen_response_spectrum', 'response_series', 'im.calc_max_velocity_period',
+                 'im.max_acceleration_period', 'im.calc_asi', 'im.calc_vsi', 'im.cumulative_response_spectra', 'im.calc_cav_dp',
+                 'generate_all_motion_stats'}
+READER_CLAUSES = ['after-readers.nbins==N//2', 'after-readers.bins==dt*DFT', 'after-readers.freqs==k/(N*dt)',
+                  'after-readers.max_fa_period-on-requested-grid']
+
+
+def _apply_reader(eqsig, s, r):
+    """One read / analysis call that does not change the record, through the public API. r = [name, args...]."""
+    name, a = r[0], r[1:]
+    im, fq, sw = eqsig.im, eqsig.fns.frequency, eqsig.stockwell
+    if name == 'smooth_fa_spectrum':
+        s.smooth_fa_spectrum
+    elif name == 'gen_smooth_fa_spectrum':
+        s.gen_smooth_fa_spectrum()
+    elif name == 'gen_smooth_fa_spectrum/freqs':
+        s.gen_smooth_fa_spectrum(smooth_fa_freqs=a[0])
+    elif name == 'gen_smooth_fa_spectrum/band':
+        s.gen_smooth_fa_spectrum(band=a[1])
+    elif name == 'generate_smooth_fa_spectrum':
+        s.generate_smooth_fa_spectrum()
+    elif name == 'generate_smooth_fa_spectrum/band':
+        s.generate_smooth_fa_spectrum(band=a[1])
+    elif name == 'set_smooth_fa_freqs+read':
+        s.smooth_fa_freqs = a[0]
+        s.smooth_fa_spectrum
+    elif name == 'set_smooth_fa_frequencies+read':
+        s.smooth_fa_frequencies = np.array(a[0])
+        s.smooth_fa_spectrum
+    elif name == 'set_smooth_by_range+read':
+        s.set_smooth_fa_frequecies_by_range((a[0][0], a[0][-1]), len(a[0]) + 3)
+        s.smooth_fa_spectrum
+    elif name == 'set_smooth_freq_range+read':
+        s.smooth_freq_range = (a[0][0], a[0][-1])
+        s.smooth_fa_spectrum
+    elif name == 'set_smooth_freq_points+read':
+        s.smooth_freq_points = len(a[0]) + 5
+        s.smooth_fa_spectrum
+    elif name == 'im.calc_bandwidth_freqs':
+        im.calc_bandwidth_freqs(s, ratio=a[2])
+    elif name == 'im.calc_bandwidth_f_min':
+        im.calc_bandwidth_f_min(s, ratio=a[2])
+    elif name == 'im.calc_bandwidth_f_max':
+        im.calc_bandwidth_f_max(s)
+    elif name == 'get_sig_freq_range':
+        fq.get_sig_freq_range(s, ratio=1.0 / a[2])
+    elif name == 'fa_spectrum_abs':
+        s.fa_spectrum_abs
+    elif name == 'smooth_fa_freqs':
+        s.smooth_fa_freqs, s.smooth_fa_frequencies, s.smooth_freq_range, s.smooth_freq_points
+    elif name == 'custom_matrix':
+        m = fq.calc_smoothing_matrix_konno_1998(s.fa_frequencies, np.array(a[0]), band=a[1])
+        fq.calc_smooth_fa_spectrum_w_custom_matrix(s, m)
+    elif name == 'calc_smooth_fa_spectrum/array-level':
+        fq.calc_smooth_fa_spectrum(s.fa_freqs, s.fa_spectrum, np.array(a[0]), band=a[1])
+    elif name == 'time+npts+values':
+        s.time, s.npts, s.values, s.dt, s.label
+    elif name == 'get_section_average':
+        s.get_section_average(start=0, end=max(1, s.npts // 2), index=True)
+    elif name == 'stockwell.plot_stock':
+        sw.plot_stock(_NoPlot(), s)
+    elif name == 'stockwell.transform':
+        sw.transform(s.values)
+    elif name == 'stockwell.get_max_stockwell_freq':
+        sw.get_max_stockwell_freq(s)
+    elif name == 'stockwell.freqs+times':
+        sw.plot_stock(_NoPlot(), s)
+        sw.get_stockwell_freqs(s), sw.get_stockwell_times(s)
+    elif name == 'generate_fa_spectrum/array-level':
+        eqsig.generate_fa_spectrum(s, n_pad=bool(a[3] % 2))
+    elif name == 'calc_fa_spectrum/array-level':
+        k = a[3] % 3
+        eqsig.calc_fa_spectrum(s) if k == 0 else (eqsig.calc_fa_spectrum(s, p2_plus=a[3] % 4) if k == 1
+                                                  else eqsig.calc_fa_spectrum(s, n=s.npts + a[3]))
+    elif name in ('deepcopy+read-copy', 'pickle+read-copy'):
+        c = copy.deepcopy(s) if name.startswith('deepcopy') else pickle.loads(pickle.dumps(s))
+        _carry_memo(s, c)
+        c.smooth_fa_spectrum
+        c.gen_fa_spectrum(p2_plus=a[3] % 4)
+        c.fa_spectrum
+    elif name == 'calc_fourier_moment':
+        fq.calc_fourier_moment(s, a[3] % 3)
+    elif name == 'get_bandwidth_boore_2003':
+        fq.get_bandwidth_boore_2003(s)
+    elif name == 'fas2values(own spectrum)':
+        eqsig.fas2values(s.fa_spectrum, s.dt)
+    elif name == 'velocity':
+        s.velocity
+    elif name == 'displacement':
+        s.displacement
+    elif name == 'generate_displacement_and_velocity_series':
+        s.generate_displacement_and_velocity_series(trap=bool(a[3] % 2))
+    elif name == 'peaks':
+        s.pga, s.pgv, s.pgd
+    elif name == 'generate_peak_values':
+        s.generate_peak_values()
+    elif name in ('s_a', 's_v', 's_d'):
+        getattr(s, name)
+    elif name == 'gen_response_spectrum':
+        s.gen_response_spectrum(response_times=np.array(a[0]), xi=0.05) if a[3] % 2 else s.generate_response_spectrum()
+    elif name == 'response_series':
+        s.response_series(response_times=np.array(a[0][:3]))
+    elif name in ('generate_cumulative_stats', 'generate_duration_stats', 'generate_all_motion_stats', 'reset_all_motion_stats'):
+        getattr(s, name)()
+    elif name == 'im.calc_sig_dur':
+        im.calc_sig_dur(s, se=bool(a[3] % 2))
+    elif name == 'im.calc_brac_dur':
+        im.calc_brac_dur(s, a[2] * float(np.max(np.abs(s.values))))
+    elif name == 'im.calc_acc_rms':
+        im.calc_acc_rms(s, a[2] * float(np.max(np.abs(s.values))))
+    elif name == 'im.cumulative_response_spectra':
+        im.cumulative_response_spectra(s, 'arias_intensity', periods=a[0][:3])
+    elif name.startswith('im.'):
+        getattr(im, name[3:])(s)
+    else:
+        raise ValueError('unknown reader %r' % (name,))
+
+
+def _check_period_on_grid(ctx, wit, x, dt, N, result, T):
+    """max_fa_period after the readers: the period of a bin k/(N*dt) of the grid the CALLER asked for, and that bin is a
+    largest one of the oracle spectrum of the record zero-padded to that N (slack: the per-bin tolerance)."""
+    M = N // 2
+    if N > FULL_N or N < len(x) or M < 1:
+        ctx.observe('after-readers: max_fa_period not judged (N > %d, or truncation)' % FULL_N)
+        return
+    oamp = np.abs(dt * _oracle_bins(O.zero_pad(x, N), np.arange(M, dtype=np.int64), 'fwd'))
+    top = float(np.max(oamp))
+    slack = 2.0 * T['bin'] * dt * float(np.sum(np.abs(x)))
+    try:
+        r = float(result)
+    except Exception:
+        r = float('nan')
+    k = None
+    if np.isinf(r) and r > 0:
+        k = 0
+    elif np.isfinite(r) and r > 0:
+        kf = N * dt / r
+        kk = int(round(kf))
+        if 1 <= kk < M and abs(kf - kk) <= max(1e-9, 10 * T['freq']) * kk:
+            k = kk
+    ok = k is not None and oamp[k] >= top * (1.0 - RTOL_TIE) - slack
+    _judge(ctx, ok, 'after-readers.max_fa_period-on-requested-grid', wit,
+           lambda: 'max_fa_period -> %r after gen_fa_spectrum with N=%d (npts=%d, dt=%r) and pure reads: %s; the largest bin of '
+                   'dt*DFT on that grid is %d (period %r)'
+           % (result, N, len(x), dt, 'not the period of a bin k/(N*dt), k=%r' % (N * dt / r if r else None) if k is None
+              else 'bin %d has amplitude %.6g, the largest is %.6g' % (k, float(oamp[k]), top),
+              int(np.argmax(oamp)), (N * dt / int(np.argmax(oamp))) if int(np.argmax(oamp)) else float('inf')))
+
+
+def rel_readers(ctx, eqsig, p):
+    """gen_fa_spectrum(p2_plus | n) on one object (or on two objects built from one caller array) -> reads / analysis calls
+    of other derived quantities (p['readers'] = [[object, name, args...], ...]) -> fa_spectrum / fa_freqs / fa_frequencies /
+    max_fa_period: still dt*DFT of the (unchanged) record zero-padded to the N that was asked for, bins k/(N*dt). A reader
+    that raises is counted, not judged; what is read afterwards is judged in any case."""
+    _HISTORY[0] = p
+    _PHASE[0] = None
+    wit = lambda: dict(p, fn='rel.readers')
+    try:
+        A = _as_form(p['values'], p.get('form'))
+        snap = _snapshot(A)
+        if p.get('cluster') is not None:
+            cl = eqsig.Cluster([A, np.asarray(p['cluster'], dtype=float)], p['dt'], stypes='acc' if p['cls'] == 'AccSignal' else 'custom')
+            objs = [cl.signal_by_index(0)]
+        else:
+            objs = [_mk(eqsig, p['cls'], A, p['dt'])]
+        if p.get('twin'):
+            objs.append(_mk(eqsig, 'Signal' if p['cls'] == 'AccSignal' else 'AccSignal', A, p['dt']))
+        asked = {}
+
+        def run(r):
+            s = objs[min(int(r[0]), len(objs) - 1)]
+            try:
+                with np.errstate(all='ignore'):
+                    _apply_reader(eqsig, s, r[1:])
+            except Exception as e:
+                ctx.observe('readers: %s raised %s (counted, not judged here)' % (r[1], type(e).__name__))
+
+        def judge(o, names):
+            s = objs[o]
+            rec = _record_of(ctx, s)
+            if rec is None:
+                return
+            x, dt, T = rec
+            N = asked.get(o, O.n_padded(len(x)))
+            for nm in names:
+                if nm == 'max_fa_period':
+                    _check_period_on_grid(ctx, wit, x, dt, N, eqsig.im.max_fa_period(s), T)
+                else:
+                    got = getattr(s, nm)
+                    fa = got if nm == 'fa_spectrum' else s.fa_spectrum
+                    fr = got if nm != 'fa_spectrum' else s.fa_freqs
+                    check_spectrum(ctx, 'after-readers', wit, x, dt, N, fa, fr, T=T)
+
+        for r in p['pre']:
+            run(r)
+        for o, p2, n in p['gens']:
+            o = min(int(o), len(objs) - 1)
+            s = objs[o]
+            kw = {}
+            if p2 is not None:
+                kw['p2_plus'] = _int_as(p2, p.get('int_form'))
+            if n is not None:
+                kw['n'] = _int_as(n, p.get('int_form'))
+            s.gen_fa_spectrum(**kw)
+            asked[o] = int(n) if n is not None else O.n_padded(s.npts, int(p2 or 0))
+        for i, r in enumerate(p['readers']):
+            run(r)
+            if p.get('between') and i + 1 < len(p['readers']):
+                judge(min(int(r[0]), len(objs) - 1), p['final'][:1])
+        for o in range(len(objs)):
+            judge(o, p['final'] if o == 0 else p['final'][::-1])
+        _judge(ctx, _unchanged(A, snap), 'argument-unchanged[record]', wit, 'the array handed to the object(s) changed during the readers history')
+    finally:
+        _HISTORY[0] = None
+
+
+def _draw_reader_history(rng, h, tier):
+    """Every reader is the first one of a history in turn (Signal: the common ones, AccSignal: all of them); up to three more
+    follow, half of them from the smoothed-spectrum family; explicit options p2_plus 1..3 | n (classes of _explicit_n) |
+    both | defaults (control)."""
+    clsname = 'AccSignal' if h % 2 else 'Signal'
+    pool = COMMON_READERS + (ACC_READERS if clsname == 'AccSignal' else [])
+    names = [pool[(h // 2) % len(pool)]]
+    for _ in range(int(rng.integers(0, 4))):
+        src = SMOOTH_READERS if rng.random() < 0.5 else pool
+        names.append(src[int(rng.integers(len(src)))])
+    if rng.random() < 0.5:
+        rng.shuffle(names)
+    heavy = any(k in HEAVY_READERS for k in names)
+    npts = max(2, int(round(2.0 ** rng.uniform(1.0, 7.5 if heavy else 9.5))))
+    if rng.random() < 0.7:
+        x, rcls = _plain_record(rng, npts)
+        if rng.random() < 0.3:
+            x = x + float(rng.choice([-1.0, 1.0])) * float(np.max(np.abs(x)))      # non-zero mean: bin 0 carries weight
+        xin, form, cont = x, None, 'f64'
+    else:
+        xin, form, rcls, cont = _draw_input(rng, npts)
+    dt = gen.dt(rng)
+    twin = bool(rng.random() < 0.2)
+
+    def mk(o, name):
+        freqs = [float(t) for t in np.sort(10.0 ** rng.uniform(-1, 1.3, size=int(rng.integers(2, 12))))]
+        return [o, name, freqs, int(rng.choice([10, 20, 40, 80])), float(rng.choice([0.5, 0.707, 0.9])), int(rng.integers(0, 12))]
+
+    def options(i):
+        r = rng.random()
+        if r < 0.4:
+            return [int(rng.integers(1, 4)), None]
+        if r < 0.85:
+            return [None, _explicit_n(rng, npts, i)]
+        if r < 0.92:
+            return [int(rng.integers(0, 4)), _explicit_n(rng, npts, i)]
+        return [0, None] if rng.random() < 0.5 else [None, None]
+
+    gens = []
+    if rng.random() < 0.2:
+        gens.append([0] + options(int(rng.integers(8))))
+    gens.append([0] + options(h // 2))
+    if twin:
+        gens.insert(int(rng.integers(len(gens) + 1)), [1] + options(int(rng.integers(8))))
+    pre = []
+    r = rng.random()
+    if r < 0.15:
+        pre.append(mk(0, 'fa_spectrum_abs'))
+    elif r < 0.3:
+        pre.append(mk(0, 'smooth_fa_spectrum'))            # the smoothed spectrum of the DEFAULT grid is cached before the request
+    elif r < 0.45:
+        pre.append(mk(0, names[0]))
+    readers = [mk(int(rng.integers(2)) if twin and j and rng.random() < 0.5 else 0, k) for j, k in enumerate(names)]
+    final = [NAMES3[int(i)] for i in rng.permutation(3)[:int(rng.integers(1, 4))]]
+    if rng.random() < 0.6:
+        final.insert(int(rng.integers(len(final) + 1)), 'max_fa_period')
+    p = {'values': xin, 'form': form, 'dt': dt, 'cls': clsname, 'twin': twin, 'rel': 'rel.readers',
+         'int_form': [None, None, 'np.int64', 'np.int32'][int(rng.integers(4))],
+         'pre': pre, 'gens': gens, 'readers': readers, 'between': bool(rng.random() < 0.4), 'final': final}
+    if not twin and form is None and cont == 'f64' and rng.random() < 0.15:
+        p['cluster'] = _plain_record(rng, npts)[0]
+    return p, names, rcls, cont
+
+
 def _largest_prime_factor(n):
     f, p = 1, 2
     while p * p <= n:
@@ -2173,6 +2497,22 @@ def run_shard(ctx):
                 rel_history(ctx, eqsig, p)
             except Exception as e:
                 ctx.exception(clause, dict(p, fn='rel.history'), e)
+    # -- round 4: explicit non-default generation -> reads / analysis calls of other derived quantities -> spectrum reads --
+    n_readers = 432 if quick else 3456
+    for h in core.split_range(n_readers, ctx.shard, ctx.nshards):
+        if ctx.out_of_time():
+            ctx.observe('stopped by the safety-net budget')
+            break
+        p, kinds, rcls, cont = _draw_reader_history(rng, h, ctx.tier)
+        ctx.case(core.digest(np.asarray(p['values'], dtype=float), 'readers', cont, p['dt'], p['cls'], repr(p['gens']), repr(p['readers'])),
+                 nontrivial=True, cls='readers/%s/%s%s%s' % (p['cls'], kinds[0], '/twin' if p['twin'] else '',
+                                                            '/cluster-member' if p.get('cluster') is not None else ''),
+                 sample={'readers': kinds, 'npts': len(p['values']), 'dt': p['dt'], 'cls': p['cls'], 'record': rcls, 'container': cont,
+                         'gens': p['gens'], 'pre': [r[1] for r in p['pre']], 'final': p['final'], 'twin': p['twin']})
+        try:
+            rel_readers(ctx, eqsig, p)
+        except Exception as e:
+            ctx.exception('after-readers.nbins==N//2', dict(p, fn='rel.readers'), e)
     # -- round 3: f(A); f(B); f(A) at non-default options, B of the same and of another shape -----------------------
     n_aba = 192 if quick else 1536
     for k in core.split_range(n_aba, ctx.shard, ctx.nshards):
@@ -2244,6 +2584,8 @@ def replay(w):
         rel_inverse_object(ctx, eqsig, w)
     elif fn == 'rel.history':
         rel_history(ctx, eqsig, w)
+    elif fn == 'rel.readers':
+        rel_readers(ctx, eqsig, w)
     elif fn == 'rel.aba':
         rel_aba(ctx, eqsig, w)
         rel_aba(ctx, eqsig, w)      # again: process-wide state left by the first pass (grown buffers, memos) is then in place
